@@ -145,8 +145,22 @@ def line_wrap_by_sentence(
                 subsequent_offset=subsequent_indent_len,
                 is_markdown=is_markdown,
             )
+            # If the first word doesn't fit after the short last line, the sentence starts on
+            # a new line, so wrap it from there.
+            if (
+                len(lines) > 0
+                and wrapped
+                and length(lines[-1]) < min_line_len
+                and current_column + length(wrapped[0]) > width
+            ):
+                wrapped = wrap_paragraph_lines(
+                    sentence,
+                    width=width,
+                    initial_column=subsequent_indent_len,
+                    subsequent_offset=subsequent_indent_len,
+                    is_markdown=is_markdown,
+                )
             # If last line is shorter than min_line_len, combine with next line.
-            # Also handles if the first word doesn't fit.
             if (
                 len(lines) > 0
                 and wrapped
